@@ -223,6 +223,8 @@ type segH struct {
 type Env struct {
 	fieldLists     map[string][]string // ONE caller-side []string per requested doc-value field list, handed to every DocumentValueReader call that asks for that list
 	persistCalls   int
+	retFields      map[int]*retainedFields // Fields() results the caller kept (the slice as returned + a private copy)
+	retDocNums     map[int]*retainedNums   // DocumentNumbers() results the caller kept, by output file
 	keybuf         []byte // ONE caller-side key buffer reused for every Contains / PostingsList key (the API borrows keys)
 	statObjs       map[int]segment.CollectionStats
 	tr             *Trace
@@ -260,7 +262,7 @@ func NewEnv(tr *Trace, sc *Scenario, workdir string) *Env {
 		pls: map[int]segment.PostingsList{}, its: map[int]segment.PostingsIterator{},
 		dvrs: map[int]segment.DocumentValueReader{}, bms: map[int]*roaring.Bitmap{},
 		objIDs: map[interface{}]int{}, nextObj: 1000000,
-		watchdog: 20 * time.Second * time.Duration(watchdogScale()), cov: map[string]int{}, itFlags: map[int]itFlags{}, docnums: map[int][][]int{}, dvrSeg: map[int]int{}, sawBlocked: new(bool), fieldLists: map[string][]string{}, dits: map[int]segment.DictionaryIterator{}}
+		watchdog: 20 * time.Second * time.Duration(watchdogScale()), cov: map[string]int{}, itFlags: map[int]itFlags{}, docnums: map[int][][]int{}, dvrSeg: map[int]int{}, sawBlocked: new(bool), fieldLists: map[string][]string{}, retFields: map[int]*retainedFields{}, retDocNums: map[int]*retainedNums{}, dits: map[int]segment.DictionaryIterator{}}
 }
 
 func (e *Env) Close() {
@@ -745,6 +747,13 @@ func (e *Env) doMerge(op *Op) {
 		res["delivered"] = len(data)
 		res["digest"] = digest(data)
 		dn := m.DocumentNumbers()
+		if e.retDocNums != nil {
+			cp := make([][]uint64, len(dn))
+			for i := range dn {
+				cp[i] = append([]uint64{}, dn[i]...)
+			}
+			e.retDocNums[op.File] = &retainedNums{raw: dn, copy: cp}
+		}
 		out := make([][]int, len(dn))
 		for i := range dn {
 			out[i] = make([]int, len(dn[i]))
@@ -1085,10 +1094,28 @@ func (e *Env) doCloseFile(op *Op) {
 	e.emit(M{"ev": "close_file", "seg": op.Seg})
 }
 
+type retainedFields struct {
+	raw  []string
+	copy []string
+}
+
+type retainedNums struct {
+	raw  [][]uint64
+	copy [][]uint64
+}
+
 func (e *Env) doFields(op *Op) {
 	h := e.seg(op.Seg)
 	var fs []string
-	class := e.call(func() { fs = append([]string{}, h.seg.Fields()...) })
+	class := e.call(func() {
+		raw := h.seg.Fields()
+		fs = append([]string{}, raw...)
+		if e.retFields != nil {
+			if _, ok := e.retFields[op.Seg]; !ok {
+				e.retFields[op.Seg] = &retainedFields{raw: raw, copy: fs}
+			}
+		}
+	})
 	res := resKind(class, nil)
 	if res["kind"] == "ok" {
 		if fs == nil {
@@ -1792,7 +1819,38 @@ func (e *Env) doDigest(op *Op) {
 	for _, b := range bs {
 		bms = append(bms, M{"bm": b, "d": bmDigest(e.bms[b]), "docs": bmDocs(e.bms[b])})
 	}
-	e.emit(M{"ev": "digest", "segs": segs, "bitmaps": bms})
+	// results the caller kept from earlier calls still read what they read then
+	retained := []M{}
+	var ks []int
+	for k := range e.retFields {
+		ks = append(ks, k)
+	}
+	sort.Ints(ks)
+	for _, k := range ks {
+		r := e.retFields[k]
+		same := len(r.raw) == len(r.copy)
+		for i := 0; same && i < len(r.raw); i++ {
+			same = r.raw[i] == r.copy[i]
+		}
+		retained = append(retained, M{"what": "fields", "h": k, "same": same})
+	}
+	ks = ks[:0]
+	for k := range e.retDocNums {
+		ks = append(ks, k)
+	}
+	sort.Ints(ks)
+	for _, k := range ks {
+		r := e.retDocNums[k]
+		same := len(r.raw) == len(r.copy)
+		for i := 0; same && i < len(r.raw); i++ {
+			same = len(r.raw[i]) == len(r.copy[i])
+			for j := 0; same && j < len(r.raw[i]); j++ {
+				same = r.raw[i][j] == r.copy[i][j]
+			}
+		}
+		retained = append(retained, M{"what": "docnums", "h": k, "same": same})
+	}
+	e.emit(M{"ev": "digest", "segs": segs, "bitmaps": bms, "retained": retained})
 }
 
 func bmDocs(bm *roaring.Bitmap) []int {
